@@ -133,7 +133,7 @@ class Sched:
                     return cur
                 if self.mode == 'rw' and self.rng.random() < self.p:
                     return self.rng.choice([t for t in ready if t is not cur])
-                if self.mode == 'labels' and self.rng.random() < self.label_p.get(label, self.p):
+                if self.mode == 'labels' and self.rng.random() < self.label_p.get(label[0] if isinstance(label, tuple) else label, self.p):
                     return self.rng.choice([t for t in ready if t is not cur])
             return cur
         # the current thread can not continue
